@@ -296,9 +296,33 @@ let run_case (x : sx) : Stdlib.String.t =
                     | L (A "4" :: inner) -> RRec (plain inner)
                     | L l -> RPlain (plain l)
                     | _ -> failwith "bad step" in
-                  let is_filter = function L (A "7" :: _) | L (A "8" :: _) | L (A "9" :: _) | L (A "10" :: _) | L (A "11" :: _) | L (A "12" :: _) | L (A "13" :: _) | L (A "14" :: _) -> true | _ -> false in
+                  let is_filter = function L (A "7" :: _) | L (A "8" :: _) | L (A "9" :: _) | L (A "10" :: _) | L (A "11" :: _) | L (A "12" :: _) | L (A "13" :: _) | L (A "14" :: _) | L (A "15" :: _) -> true | _ -> false in
                   let op_of = function "0" -> OEq | "1" -> ONe | "2" -> OLt | "3" -> OLe | "4" -> OGt | "5" -> OGe | _ -> failwith "bad operator" in
+                  let bq_of = function
+                    | L (A "e" :: inner) -> BE (List.map rstep_of inner)
+                    | L (A "n" :: inner) -> BN (List.map rstep_of inner)
+                    | L (A "c" :: L inner :: A o :: lit) -> BC (List.map rstep_of inner, op_of o, cp lit)
+                    | L (A "re" :: j) -> BRE (List.map rstep_of j)
+                    | L (A "rn" :: j) -> BRN (List.map rstep_of j)
+                    | L [A "cr"; L inner; A o; L j] -> BCR (List.map rstep_of inner, op_of o, List.map rstep_of j)
+                    | L [A "pq"; L inner; A ne; L j] -> BPQ (List.map rstep_of inner, ne = "1", List.map rstep_of j)
+                    | L (A "x" :: L inner :: body) -> BX (List.map rstep_of inner, cp body)
+                    | L [A "l"; L inner; A ne; L lv] ->
+                        let l = match lv with
+                          | A "s" :: A q :: body -> LStr (n_of_int (int_of_string q), cp body)
+                          | [A "b"; A b; A sp] -> LBool (b = "1", nat_of_int (int_of_string sp))
+                          | [A "n"; A sp] -> LNull (nat_of_int (int_of_string sp))
+                          | _ -> failwith "bad literal" in
+                        BL (List.map rstep_of inner, ne = "1", l)
+                    | _ -> failwith "bad basic query" in
+                  let rec qt_of = function
+                    | L [A "b"; b] -> TB (bq_of b)
+                    | L [A "p"; q] -> TP (qt_of q)
+                    | L [A "a"; l; r] -> TA (qt_of l, qt_of r)
+                    | L [A "o"; l; r] -> TO (qt_of l, qt_of r)
+                    | _ -> failwith "bad query tree" in
                   let rec fstep_of = function
+                    | L [A "15"; t] -> FT (qt_of t)
                     | L [A "11"; inner] -> FR (fstep_of inner)
                     | L (A "12" :: L inner :: A g0 :: A a :: A o :: A b :: A g1 :: lit) ->
                         FCS (List.map rstep_of inner, nat_of_int (int_of_string g0), nat_of_int (int_of_string a), op_of o,
@@ -308,23 +332,6 @@ let run_case (x : sx) : Stdlib.String.t =
                     | L (A "7" :: inner) -> FE (List.map rstep_of inner)
                     | L (A "9" :: inner) -> FN (List.map rstep_of inner)
                     | L (A "10" :: conjs) ->
-                        let bq_of = function
-                          | L (A "e" :: inner) -> BE (List.map rstep_of inner)
-                          | L (A "n" :: inner) -> BN (List.map rstep_of inner)
-                          | L (A "c" :: L inner :: A o :: lit) -> BC (List.map rstep_of inner, op_of o, cp lit)
-                          | L (A "re" :: j) -> BRE (List.map rstep_of j)
-                          | L (A "rn" :: j) -> BRN (List.map rstep_of j)
-                          | L [A "cr"; L inner; A o; L j] -> BCR (List.map rstep_of inner, op_of o, List.map rstep_of j)
-                          | L [A "pq"; L inner; A ne; L j] -> BPQ (List.map rstep_of inner, ne = "1", List.map rstep_of j)
-                          | L (A "x" :: L inner :: body) -> BX (List.map rstep_of inner, cp body)
-                          | L [A "l"; L inner; A ne; L lv] ->
-                              let l = match lv with
-                                | A "s" :: A q :: body -> LStr (n_of_int (int_of_string q), cp body)
-                                | [A "b"; A b; A sp] -> LBool (b = "1", nat_of_int (int_of_string sp))
-                                | [A "n"; A sp] -> LNull (nat_of_int (int_of_string sp))
-                                | _ -> failwith "bad literal" in
-                              BL (List.map rstep_of inner, ne = "1", l)
-                          | _ -> failwith "bad basic query" in
                         FQ (List.map (function L bs -> List.map bq_of bs | _ -> failwith "bad conjunction") conjs)
                     | L (A "8" :: L inner :: A o :: lit) -> FC (List.map rstep_of inner, op_of o, cp lit)
                     | L (A "14" :: A g0 :: conjs) ->
